@@ -19,8 +19,8 @@ ASSUMPTIONS = P.ASSUMPTIONS
 RULE = ("request = matching prefix + '/'-joined tokens of the adversarial alphabet {.., ., %2e%2e, %2e, ..%2f, %5c.., "
         "\\.., empty (repeated slash / trailing slash), %00, %252e%252e, ?, a 300-character name, a.txt, b, c.txt, more "
         "(names below the regular file a.txt)}: all sequences of length <= 2 (quick) / <= 4 (thorough; plus length 5-6 "
-        "over a 7-token core), a bounded sample of the remaining lengths up to 6, random longer sequences over a wider "
-        "alphabet; rotated over 36 configurations (HTTP | TFTP x template on/off x request_path with/without "
+        "over a 7-token core), a bounded sample of the remaining lengths up to 6, requests naming existing files (plain, re-"
+        "encoded, repeated slashes), random longer sequences over a wider alphabet; rotated over 36 configurations (HTTP | TFTP x template on/off x request_path with/without "
         "placeholder x file_suffix, file mode) on a sandbox tree with decoy files next to and above the root; every "
         "open() audit event of the handling window is recorded. Validation batches: normpath, _translate_path over 9 "
         "roots, split/join, unquote. Non-trivial = accepted request; distinct by SHA-1 of the case")
